@@ -53,11 +53,16 @@ Proof.
   - cbn. repeat split; lia.
 Qed.
 
-(* ---- the executable model over labels: three periods, B has LAGS 1 / LEADS 2 so the default range is empty;
-        solve(start=2001, end=2001) solves position 1 alone (as lx_converges_at_4); an unknown label raises KeyError ---- *)
+(* ---- the executable model over labels: three periods, B has LAGS 1 / LEADS 1 so the default range is period 1 alone
+        (as lx_converges_at_4); solve(start=2001, end=2001) is the same; an unknown label raises KeyError; an explicit
+        start at period 0 — no room for the linker's lag — is rejected by solve_t's own guard with IndexError ---- *)
 Definition lx_labels3 : list Z := [2000; 2001; 2002].
-Example lx_span_default_range_empty :
-  f_linker_solve_span lx_ss lx_hs None (lx_opts 0 6) lx_labels3 None None lx_state = (lx_state, inr (0%nat, [])).
+Example lx_span_default_range :
+  let r := f_linker_solve_span lx_ss lx_hs None (lx_opts 0 6) lx_labels3 None None lx_state in
+  snd r = inr (1%nat, [(2001, 1, true)]) /\ lstate_eqb (fst r) (fst (lx_run None (lx_opts 0 6))) = true.
+Proof. vm_compute. split; reflexivity. Qed.
+Example lx_span_infeasible_start :
+  f_linker_solve_span lx_ss lx_hs None (lx_opts 0 6) lx_labels3 (Some 2000) None lx_state = (lx_state, inl (LExn IndexError)).
 Proof. vm_compute. reflexivity. Qed.
 Example lx_span_one_period :
   let r := f_linker_solve_span lx_ss lx_hs None (lx_opts 0 6) lx_labels3 (Some 2001) (Some 2001) lx_state in
@@ -85,16 +90,23 @@ Example lx_errors_hypotheses_satisfiable :
   fst (lx_run None (mkOpts 0 6 tolf 0 true ESkip false)) = fst (lx_run None (lx_opts 0 6)).
 Proof. repeat split. Qed.
 
-(* ---- C08_linker_solve_failure_containment: period 0 solves, period 1 runs out of iterations under failures='raise' ---- *)
+(* ---- C08_linker_solve_failure_containment: period 1 solves; period 2 — no room for the linker's lead — is rejected with
+        IndexError: the exception surfaces, period 0 is never attempted, period 1 keeps its stamps everywhere ---- *)
 Example lx_failure_containment_hypotheses_satisfiable :
-  let o := lx_opts 0 2 in
-  let r0 := f_linker_solve lx_ss lx_hs None o [0] lx_state in
-  let r1 := f_linker_solve_t lx_ss lx_hs None o 1 (fst r0) in
-  snd r0 = inr [true] /\ snd r1 = LRaise (LExn NonConvergenceError) /\
-  f_linker_solve lx_ss lx_hs None o [0; 1; 2] lx_state = (fst r1, inl (LExn NonConvergenceError)) /\
-  status (c_st (l_core (fst r1))) = [Solved; Failed; Unsolved] /\
-  map (fun ic => status (c_st (snd ic))) (l_subs (fst r1)) = [[Solved; Failed; Unsolved]; [Solved; Failed; Unsolved]].
+  let o := lx_opts 0 6 in
+  let r0 := f_linker_solve lx_ss lx_hs None o [1] lx_state in
+  let r1 := f_linker_solve_t lx_ss lx_hs None o 2 (fst r0) in
+  snd r0 = inr [true] /\ snd r1 = LRaise (LExn IndexError) /\
+  f_linker_solve lx_ss lx_hs None o [1; 2; 0] lx_state = (fst r1, inl (LExn IndexError)) /\
+  status (c_st (l_core (fst r1))) = [Unsolved; Solved; Unsolved] /\
+  map (fun ic => status (c_st (snd ic))) (l_subs (fst r1)) = [[Unsolved; Solved; Unsolved]; [Unsolved; Solved; Unsolved]].
 Proof. vm_compute. repeat split. Qed.
+(* ... and with an iteration budget too small for period 1 under failures='raise' the fold stops there with
+   NonConvergenceError, 'F' stamped at period 1 only *)
+Example lx_failure_containment_nonconvergence :
+  let r := f_linker_solve lx_ss lx_hs None (lx_opts 0 2) [1; 2] lx_state in
+  snd r = inl (LExn NonConvergenceError) /\ status (c_st (l_core (fst r))) = [Unsolved; Failed; Unsolved].
+Proof. vm_compute. split; reflexivity. Qed.
 
 (* ---- a history: all submodels solved at period 1; then only A re-solved there with max_iter = 0: A reads 'F' / 0,
         the linker 'F' / 0, and B — unselected in the second call — keeps the '.' / 4 the first call stamped ---- *)
@@ -107,26 +119,33 @@ Example lx_history_keeps_earlier_stamps :
 Proof. vm_compute. repeat split. Qed.
 
 (* ---- "a linker that wraps a single model and adds no equations solves it to the same statuses, iteration counts and
-        values as solving that model directly" is FALSE of the faithful model outside the premises of
-        single_model_linker_eq_model: BaseLinker.solve_t lacks three things BaseModel.solve_t has ---- *)
+        values as solving that model directly" is still FALSE of the faithful model outside the finite regime: since
+        fixes 97423a0 / a0fbb5c BaseLinker.solve_t has BaseModel.solve_t's two guards, but it has no error policy ---- *)
 Lemma single_model_linker_eq_model_refuted :
-  (* (1) no feasibility guard: at a period without room for the model's lags the model raises IndexError and changes
-         nothing, the linker evaluates it (wrapped reads) and declares it solved *)
-  (exists d o, feasible d 3 1 = false /\ min_iter o <= max_iter o /\ offset o = 0 /\
-               lx_mrun lx_scA d o = (lx_mA, Raise IndexError) /\ snd (lx_lrun lx_scA d o) = LRet true) /\
-  (* (2) no min_iter > max_iter guard in solve_t: ValueError and nothing changed vs. max_iter iterations and 'F' *)
-  (exists o, max_iter o < min_iter o /\
-             lx_mrun lx_scA lx_dA o = (lx_mA, Raise ValueError) /\
-             snd (lx_lrun lx_scA lx_dA o) = LRaise (LExn NonConvergenceError) /\
-             map (fun ic => status (c_st (snd ic))) (l_subs (fst (lx_lrun lx_scA lx_dA o))) = [[Unsolved; Failed; Unsolved]]) /\
-  (* (3) no error policy: a NaN check value under errors='raise' is SolutionError and 'E' for the model; the linker
-         just compares it, iterates on and declares the period solved *)
-  (exists sc o, errors o = ERaise /\
-                snd (lx_mrun sc lx_dA o) = Raise (SolutionError None) /\ status (fst (lx_mrun sc lx_dA o)) = [Unsolved; ErrorSt; Unsolved] /\
-                snd (lx_lrun sc lx_dA o) = LRet true).
+  (* a NaN check value under errors='raise' is SolutionError and 'E' for the model; the linker just compares it,
+     iterates on and declares the period solved *)
+  exists sc o, errors o = ERaise /\ min_iter o <= max_iter o /\ offset o = 0 /\ feasible lx_dA 3 1 = true /\
+               snd (lx_mrun sc lx_dA o) = Raise (SolutionError None) /\ status (fst (lx_mrun sc lx_dA o)) = [Unsolved; ErrorSt; Unsolved] /\
+               snd (lx_lrun sc lx_dA o) = LRet true.
+Proof. exists lx_sc_nan, (lx_opts 0 6). vm_compute. repeat split; congruence. Qed.
+
+(* the premises C08_single_model_linker_eq_model adds for "what __init__ establishes" hold of the wrapped example *)
+Example lx_single_constructed_premises :
+  lags (c_desc (l_core (lx_single lx_dA))) = lags lx_dA /\ leads (c_desc (l_core (lx_single lx_dA))) = leads lx_dA /\
+  length (status (c_st (l_core (lx_single lx_dA)))) = length (status lx_mA).
+Proof. repeat split. Qed.
+
+(* ---- the guard premises of the *_M theorems and of C08_guard_passed_fits_every_submodel hold of the running example:
+        linker lags 1 / leads 1 dominate A (0 / 0) and B (1 / 1); period 1 of 3 passes both guards, periods 0 and 2 do not ---- *)
+Example lx_guard_hypotheses_satisfiable :
+  min_iter (lx_opts 0 6) <= max_iter (lx_opts 0 6) /\
+  linker_infeasible (c_desc (l_core lx_state)) 3 1 = false /\ linker_infeasible (c_desc (l_core lx_state)) 3 (-2) = false /\
+  linker_infeasible (c_desc (l_core lx_state)) 3 0 = true /\ linker_infeasible (c_desc (l_core lx_state)) 3 (-1) = true /\
+  py_pos 3 1 = Some 1%nat /\
+  (forall ic, In ic (l_subs lx_state) -> (lags (c_desc (snd ic)) <= lags (c_desc (l_core lx_state)))%nat /\
+                                         (leads (c_desc (snd ic)) <= leads (c_desc (l_core lx_state)))%nat) /\
+  as_constructed lx_state = lx_state.
 Proof.
-  split; [|split].
-  - exists (mkDesc [0%nat] [0%nat] 2 0), (lx_opts 0 6). vm_compute. repeat split; congruence.
-  - exists (lx_opts 3 2). vm_compute. repeat split.
-  - exists lx_sc_nan, (lx_opts 0 6). vm_compute. repeat split.
+  repeat split; try (cbn; lia); try reflexivity;
+    destruct H as [<-|[<-|[]]]; cbn; lia.
 Qed.
